@@ -10,6 +10,8 @@ import pulsarbat as pb
 
 from .. import exact, gen, probes, monitors
 
+from ..replay import wl_R
+
 RULE = ("all numpy ufuncs with nin<=2, nout<=2 valid for the operand dtypes x operand arrangements {sig o sig, sig o array, array o sig, "
         "sig o scalar, scalar o sig, sig o Quantity, Quantity o sig, subclass/superclass mixes} x 6 classes x NumPy/Dask x where=/out= "
         "forms (keyword, tuple with None, ndarray target, signal target, in-place operator chains). Every Signal.__array_ufunc__ call is "
@@ -33,7 +35,7 @@ def snap(v):
     """Independent copy of an operand's raw value."""
     d = unwrap(v)
     if isinstance(d, da.Array):
-        return d            # immutable graph
+        return d.copy()     # new Array object on the same graph: dask implements out= by rebinding the target Array in place
     if isinstance(d, np.ndarray):
         return d.copy()
     return d
@@ -182,6 +184,8 @@ class UfuncMonitor:
             if isinstance(r, pb.Signal) and tgt is None and type(r)._req_dtype and np.asarray(want).dtype not in [np.dtype(d) for d in type(r)._req_dtype]:
                 want = np.asarray(want).astype(type(r)._req_dtype[0], casting="safe")
             gv, wv = np.asarray(got), np.asarray(want)
+            if tgt is not None and gv.dtype != wv.dtype and np.can_cast(wv.dtype, gv.dtype, casting="same_kind"):
+                wv = wv.astype(gv.dtype)          # the ufunc casts its result into the given target
             if isinstance(want, u.Quantity) != isinstance(got, u.Quantity) or (isinstance(want, u.Quantity) and want.unit != got.unit):
                 ctx.violation(o, f"np.{ufunc.__name__}: result data is {type(got).__name__}"
                                  f"{'[' + str(got.unit) + ']' if isinstance(got, u.Quantity) else ''}, the operation on the underlying arrays gives "
@@ -416,9 +420,14 @@ def wl_refusals(ctx, idx, rng):
         ctx.violation("asarray", "len(signal) != number of samples", None, {"what": "len"})
 
 
+def install_universal(ctx):
+    UfuncMonitor(ctx).install()
+    return probes.detach_all
+
+
 def workloads(ctx):
     q = ctx.tier == "quick"
-    return [("ufunc", len(UFUNCS) * len(ARR) * (1 if q else 30), wl_ufunc),
+    return [("R", 1, wl_R), ("ufunc", len(UFUNCS) * len(ARR) * (1 if q else 30), wl_ufunc),
             ("operators", len(OPERATORS) * 6 * (2 if q else 40), wl_operators),
             ("refusals", 18 * 12 * (1 if q else 10), wl_refusals)]
 
